@@ -91,6 +91,10 @@ pub struct DelegCase {
     /// provided method still runs its default body)
     #[serde(default)]
     pub partial: bool,
+    /// a later clause of the provided method accepts the same calls and answers a constant: the
+    /// earlier applies_default_impl() clause must keep its priority (first declared wins)
+    #[serde(default)]
+    pub later_answering_clause: bool,
 }
 
 /// response of required method m for argument x (a known function, so results can be predicted)
@@ -220,6 +224,9 @@ pub fn source(c: &DelegCase) -> String {
         clauses.push(format!(
             "M::d.each_call(&|m| m.func(|_, _| true)).applies_default_impl().n_times({delegated})"
         ));
+        if c.later_answering_clause {
+            clauses.push("M::d.each_call(&|m| m.func(|_, _| true)).answers(&|_, _, _| 424242u32)".to_string());
+        }
     }
     s.push_str("    let mut dc = unimock::verif::DynClause::new();\n");
     for cl in &clauses {
@@ -354,6 +361,7 @@ pub fn judge(c: &DelegCase, line: &str) -> Result<CaseInfo, String> {
         c.explicit_default_impl && !c.ordered,
         "applies_default_impl-clause",
     )
+    .class_if(c.explicit_default_impl && !c.ordered && c.later_answering_clause && delegated > 0, "later-clause-of-the-provided-method-also-matches")
     .class_if(interleaved, "direct-call-between-delegated")
     .class_if(delegated == 0, "no-delegated-call")
     .class_if(c.body.calls.is_empty(), "body-calls-nothing"))
@@ -401,8 +409,9 @@ pub fn case_strategy() -> impl Strategy<Value = DelegCase> {
         any::<bool>(),
         any::<bool>(),
         proptest::bool::weighted(0.4),
+        any::<bool>(),
     )
-        .prop_map(|(recv, mut body, mut history, ordered, explicit_default_impl, partial)| {
+        .prop_map(|(recv, mut body, mut history, ordered, explicit_default_impl, partial, later_answering_clause)| {
             if recv == Recv::Value {
                 // a by-value receiver is consumed by the first call it is passed to
                 body.calls.truncate(1);
@@ -411,7 +420,7 @@ pub fn case_strategy() -> impl Strategy<Value = DelegCase> {
                 }
                 history.truncate(1);
             }
-            DelegCase { recv, body, history, ordered, explicit_default_impl, partial }
+            DelegCase { recv, body, history, ordered, explicit_default_impl, partial, later_answering_clause }
         })
 }
 
